@@ -13,6 +13,7 @@
 mod gen;
 mod sexp;
 mod tree;
+mod types;
 
 use crate::model::{hex, Model};
 use crate::report::{known_findings, Report, Violation};
@@ -357,7 +358,7 @@ fn atom_ex(k: usize) -> Ex {
         6 => call(id("f"), vec![]),
         7 => Ex::Field(bx(id("t")), "x".into()),
         8 => Ex::Index(bx(id("t")), bx(num(1.0))),
-        9 => Ex::Func(Box::new(Func { params: vec![], variadic: false, body: Blk::default() })),
+        9 => Ex::Func(Box::new(Func { params: vec![], variadic: false, body: Blk::default(), sig: None })),
         10 => Ex::True,
         11 => Ex::Nil,
         _ => Ex::Varargs,
@@ -382,7 +383,7 @@ impl ME {
             ME::NegNum(_) => num(-1.0),
             ME::Paren(e) => paren(e.ex()),
             ME::IfExp(c, a, b) => Ex::IfExp(bx(c.ex()), bx(a.ex()), vec![], bx(b.ex())),
-            ME::Cast(e, t) => Ex::Cast(bx(e.ex()), TYPE_NAMES[*t % 3].to_owned()),
+            ME::Cast(e, t) => Ex::Cast(bx(e.ex()), types::tname(TYPE_NAMES[*t % 3])),
             ME::Un(op, e) => un(*op, e.ex()),
             ME::Bin(op, l, r) => bin(*op, l.ex(), r.ex()),
         }
@@ -723,6 +724,10 @@ pub fn run(report: &mut Report, replay: Option<&str>) {
     // ---- trees
     let mut work: Vec<(String, Blk, Vec<usize>)> = Vec::new();
     for (family, blk) in enumerated(thorough, &mut rng) {
+        let spans = spans_for(thorough, &mut rng, false);
+        work.push((family.to_owned(), blk, spans));
+    }
+    for (family, blk) in type_family(&mut rng, thorough) {
         let spans = spans_for(thorough, &mut rng, false);
         work.push((family.to_owned(), blk, spans));
     }
